@@ -55,8 +55,9 @@ QuantiLands(vo, x) ==
 Lands(ft, c) == IF ft.kind = "quali" THEN QualiLands(ft.vo, c) ELSE QuantiLands(ft.vo, c)
 
 (* ---- labels ---- *)
-RankOf(vo, leader) == IF leader = NAN THEN Len(NonNanOrder(vo))
-                      ELSE GLIndexOf(NonNanOrder(vo), leader) - 1
+(* 'float' labels are the group's rank in the fitted order (the missing-value modality, when it is *)
+(* a group of its own, is normally the last one)                                                  *)
+RankOf(vo, leader) == GLIndexOf(vo.order, leader) - 1
 LabelOf(dtype, ft, leader) ==
   IF dtype = "float" THEN <<1, RankOf(ft.vo, leader)>>
   ELSE IF ft.kind = "quali" \/ leader = NAN THEN <<2, leader>>
